@@ -54,8 +54,8 @@ func (st *SplitTracker) TrackAssigned(shards []SourceSplitterShard) {
 		st.assignedSplits[shard.ShardID] = struct{}{}
 	}
 
-	if len(shards) > 0 {
-		st.LastAssignedSplitID = shards[len(shards)-1].ShardID
+	for _, shard := range shards {
+		st.LastAssignedSplitID = max(st.LastAssignedSplitID, shard.ShardID)
 	}
 }
 
